@@ -640,7 +640,68 @@ def run(facts, tier, ctx):
                             "request is lost)" % (payload, bodies, (extra or sites)[0][0])), dict(sample, verdict="FAIL"))
     qc.require_floor(3, "protocol channels")
     out.append(qc)
+    # ------------------------------------------------------------ QUEUE/drain
+    # a bounded channel that threads `send` to (blocking) must be drained by a blocking receiver that runs while the
+    # senders run.  A queue that is only polled (try_iter / try_recv) - typically "after all workers are joined" - lets
+    # the senders block for ever once more messages are produced than the capacity: buffers are recycled, so the number
+    # of messages per call is not bounded by the pool size.
+    qd = RuleResult("QUEUE/drain", "every bounded channel with a blocking sender has a blocking receiver (recv / iter), "
+                    "not only a poll")
+    sends = {}
+    created = {}
+    for b in facts.body_list:
+        if not (b.id.startswith("par::") or b.id.startswith("<par::")):
+            continue
+        for bi, tt in b.calls():
+            fn = tt.get("fn") or {}
+            d = fn.get("def") or ""
+            if d.startswith("crossbeam_channel::Sender::<T>::") and fn.get("name") in ("send", "try_send", "send_timeout",
+                                                                                      "send_deadline"):
+                payload = (fn.get("gargs") or ["?"])[0]
+                if re.match(r"^[A-Z]\w*$", payload):
+                    continue
+                sends.setdefault(payload, []).append((b.id, fn.get("name"), b.loc(bi, "term")))
+            elif d.startswith("crossbeam_channel::bounded") or d.startswith("crossbeam_channel::unbounded") or \
+                    d.startswith("crossbeam_channel::channel::bounded") or d.startswith("crossbeam_channel::channel::unbounded"):
+                payload = (fn.get("gargs") or ["?"])[0]
+                created.setdefault(payload, []).append((b.id, fn.get("name"), b.loc(bi, "term")))
+            else:
+                wp = _wrapper_payload(tt, "send")
+                if wp is not None:
+                    sends.setdefault(wp, []).append((b.id, "send", b.loc(bi, "term")))
+    BLOCKING_RECV = ("recv", "iter", "into_iter")
+    for payload in sorted(set(sends) | set(created)):
+        ss = sends.get(payload, [])
+        rr = recvs.get(payload, [])
+        cc = created.get(payload, [])
+        sample = {"payload": payload, "created": [c[1] + " " + c[2] for c in cc],
+                  "senders": sorted(set(x[0] + ":" + x[1] for x in ss)),
+                  "receivers": sorted(set(x[0] + ":" + x[1] for x in rr))}
+        bounded = [c for c in cc if c[1] == "bounded"]
+        if not cc:
+            qd.fail(Finding("QUEUE/drain", "par", "creation-not-found:%s" % payload, 0, "", "channel carrying %s: creation "
+                            "site not found in par (undecided)" % payload), dict(sample, verdict="FAIL"))
+            continue
+        blocking_send = [x for x in ss if x[1] == "send"]
+        if not bounded or not blocking_send:
+            qd.ok(dict(sample, verdict="ok (unbounded or no blocking sender)"))
+            continue
+        if any(x[1].split(" ")[0] in BLOCKING_RECV for x in rr):
+            qd.ok(dict(sample, verdict="ok"))
+        else:
+            qd.fail(Finding("QUEUE/drain", blocking_send[0][0], "polled-only:%s" % payload, 0, blocking_send[0][2],
+                            "the bounded channel carrying %s (created at %s) is sent to with a blocking `send` (%s) but is "
+                            "only polled (%s), never received from with a blocking recv while the senders run: once more "
+                            "messages are produced than its capacity the sender blocks for ever and the threads are never "
+                            "joined" % (payload, bounded[0][2], blocking_send[0][2],
+                                        ", ".join(sorted(set(x[1] + " " + x[2] for x in rr))) or "no receiver")),
+                    dict(sample, verdict="FAIL"))
+    qd.require_floor(3, "protocol channels")
+    out.append(qd)
     # ... and that non-zero count is what sizes the pool and the stop tokens (no arithmetic on the way; shared with C05)
     from . import c05
     out += [r for r in c05.shared_state(facts) if r.rule == "STATE-ENUM/shared"]
+    # the feeder hands every buffer id it took on (to a worker) before it takes the next one: a `continue` that skips the
+    # hand-over leaks a buffer from the pool, and after pool-size leaks the feeder waits for a refill for ever (C05's rule)
+    out += [r for r in c05.run(facts, tier, ctx) if r.rule == "SIBLING/block-loop"]
     return out
